@@ -458,7 +458,7 @@ def diff_report(ctx, cases, impl_out, model_out, describe, key_prefix, monitor=N
     return dis
 
 
-def judge(ctx, pid, label, cases, out_i, out_m, dis, monitor, describe, harness, corr_name, monitor_all=True, max_per_cat=1, max_cats=8):
+def judge(ctx, pid, label, cases, out_i, out_m, dis, monitor, describe, harness, corr_name, monitor_all=True, max_per_cat=1, max_cats=8, monitor_oracle=False):
     """Shared verdict logic (DESIGN section 2, step 7).
     dis = indices where implementation and model disagree.  monitor(case, impl_line) returns None or the
     clause of the property that fails.  Every disagreement is a broken correspondence; the monitor decides
@@ -477,7 +477,7 @@ def judge(ctx, pid, label, cases, out_i, out_m, dis, monitor, describe, harness,
             unexplained.append(i)
     if monitor_all:
         for i in range(n):
-            if i not in disset and out_m[i] != "ORACLE":
+            if i not in disset and (monitor_oracle or out_m[i] != "ORACLE"):
                 why = monitor(cases[i], out_i[i])
                 if why:
                     k = "M:" + re.sub(r"[0-9]+|b'.*?'|b\".*?\"", "#", why)[:60]
